@@ -233,10 +233,25 @@ def fill_holes(mesh):
             return [hole], []
         # the hole is a quad, which we fill with two triangles
         if len(hole) == 4:
+            # the quad is split along the diagonal `hole[0]-hole[2]`
+            # if that diagonal is already an edge of the mesh the new
+            # triangles would share it with the two faces which use it
+            # now, so split along the other diagonal instead
+            if tuple(sorted(hole[[0, 2]])) in existing_edges():
+                hole = np.roll(hole, 1)
             face_A = hole[[0, 1, 2]]
             face_B = hole[[2, 3, 0]]
             return [face_A, face_B], []
         return [], []
+
+    # the edges of the mesh as a set of sorted tuples
+    # only populated if there is a quad hole to fill
+    edge_set = []
+
+    def existing_edges():
+        if len(edge_set) == 0:
+            edge_set.append(set(map(tuple, mesh.edges_sorted.tolist())))
+        return edge_set[0]
 
     if len(mesh.faces) < 3:
         return False
